@@ -4,6 +4,7 @@ import (
 	"bytes"
 	"encoding/hex"
 	"strings"
+	"sync/atomic"
 	"unicode/utf8"
 
 	"github.com/vektah/gqlparser/v2"
@@ -187,7 +188,52 @@ func runC12(c *core.Ctx) {
 		}
 		c.Seen(true, []byte(k.text))
 	})
-	c.Evals += int64(nDocs) * 2
+	// the scale family: pieces of text around 4 KiB and 64 KiB (string and block string values, names,
+	// comments), wide lists, selection sets, argument, directive and variable lists, deep nesting; every
+	// option set; the re-parsed tree is the tree of the input (implementation-side oracle), and the
+	// formatter's bytes are the model's up to a hundred elements and 256-byte pieces
+	var scale []string
+	for _, k := range ScaleDocs() {
+		scale = append(scale, k.Query)
+	}
+	scale = append(scale, WideQueryDocs()...)
+	tied := map[string]bool{}
+	for _, k := range ScaleDocsUpTo(101, 256) {
+		if k.Tag == "deep100" {
+			continue // the model prints the indentation of 300 levels in minutes
+		}
+		tied[k.Query] = true
+	}
+	var nScale int64
+	c.Pool.ParFor(len(scale), func(w, i int) {
+		text := scale[i]
+		orig, err := parser.ParseQuery(&ast.Source{Input: text, Name: "q"})
+		if err != nil {
+			return
+		}
+		expect := eraseKinds("ok " + DumpQueryDoc(orig, false))
+		atomic.AddInt64(&nScale, 1)
+		for fi, fl := range []string{"", "c", "d", "cd", "m", "cm"} {
+			for _, indent := range []string{"", "  ", "\t"} {
+				args := [][]byte{[]byte(fl), []byte(indent), []byte(text)}
+				out := c.Impl(w, "fq", args...)
+				parts := strings.Split(out, "|")
+				if !(len(parts) == 3 && eraseKinds(parts[1]) == expect && parts[2] == "1") {
+					c.ReportOracle("format-parse-roundtrip", map[string]interface{}{"op": "fq", "args": []string{hexs(fl), hexs(indent), hexs(text)},
+						"input": text[:min(300, len(text))], "bytes": len(text), "flags": fl, "indent": indent, "implementation": out[:min(600, len(out))],
+						"note": "formatted text must parse back into the same document and formatting that again must give the same text"})
+					return
+				}
+				if tied[text] && fi == i%4 && indent == "  " { // one option set per document: the model answers these in seconds
+					if v, cur, none := c.Tie(w, "fq", out, args...); v == core.Violation {
+						c.Report(w, "fq", thm, args, out, cur, none)
+					}
+				}
+			}
+		}
+	})
+	c.Count("scale_documents", nScale)
+	c.Evals += int64(nDocs)*2 + nScale*18
 	c.Programs = int64(nDocs)
 	c.Sample(map[string]string{"document": cases[0].text, "flags": cases[0].flags, "indent": cases[0].indent})
 	c.Sample(map[string]string{"document": cases[1].text, "flags": cases[1].flags, "indent": cases[1].indent})
